@@ -48,6 +48,9 @@ Definition rt_no_tx (o : list rt_out) : Prop := forall u, rt_tproj u o = [].
 Lemma rt_no_tx_acked : forall t rm, rt_no_tx (map (fun n => RoAcked t (qn_uid n)) rm).
 Proof. intros t rm u. induction rm as [|x rm IH]; [reflexivity|]. cbn. exact IH. Qed.
 
+Lemma rt_no_tx_nacked : forall t reason rm, rt_no_tx (map (rt_nack_of t reason) rm).
+Proof. intros t reason rm u. induction rm as [|x rm IH]; [reflexivity|]. cbn. exact IH. Qed.
+
 Lemma rt_entry_ok_other : forall tr o e, rt_tproj (qn_uid (snd e)) o = [] ->
   rt_entry_ok tr e -> rt_entry_ok (tr ++ o) e.
 Proof.
@@ -159,7 +162,7 @@ Lemma rt_step_sinv : forall st ev tr,
   rt_ev_ok ev -> rt_rel tr (rs_uid st) (rt_nodes (rs_q st)) -> rt_sinv tr st ->
   let (st', o) := rt_step st ev in rt_sinv (tr ++ o) st'.
 Proof.
-  intros st ev tr Hev R S. destruct ev as [dt|s m b cfg r| |s m|s m|s m tok|]; cbn [rt_step].
+  intros st ev tr Hev R S. destruct ev as [dt|s m b cfg r| |s m|s m|s m tok|s reason|]; cbn [rt_step].
   - rewrite app_nil_r. destruct S as (F & C & Z0). split; [exact F|split; [exact C|exact Z0]].
   - unfold rt_send. set (T := fp_calc_timeout _ _ _ _ _).
     set (n := sq_mk_node _ _ _ _ _ _ _). set (st1 := rt_mk_state _ _ _ _).
@@ -215,7 +218,7 @@ Proof.
         destruct I; [left|right; right]; assumption. }
       assert (R1 : rt_rel (tr ++ o0) (rs_uid st) (rt_nodes q')).
       { eapply rt_rel_drop with (n := n) (tag := PNack rt_NACK_RST (qn_cnt n) (qn_max n));
-          [intros (A & B & M & O); cbn; repeat split; try lia; left; reflexivity| | |].
+          [intros (A & B & M & O); cbn; repeat split; try lia; intros X; discriminate| | |].
         - cbn. rewrite Z.eqb_refl. reflexivity.
         - intros u Hu. cbn. assert (X : (qn_uid n =? u) = false) by lia. rewrite X. reflexivity.
         - eapply rt_rel_perm; [exact P|exact R]. }
@@ -240,6 +243,12 @@ Proof.
     { apply rt_rel_drop_acked. eapply rt_rel_perm; [exact P|exact R]. }
     pose proof (rt_fire_sinv (rt_budget (rs_q (rt_set_q st q'))) (rt_set_q st q') _ R1 S1) as H.
     destruct (rt_fire _ (rt_set_q st q')) as [st1 o]. rewrite <- app_assoc in H. exact H.
+  - unfold rt_disconnect.
+    pose proof (sq_abs_cancel (rt_sess_match s) (rs_q st) (rs_base st)) as [A _].
+    destruct (sq_cancel (rt_sess_match s) (rs_q st)) as [rm q']. cbn [fst snd] in *.
+    apply rt_sinv_no_tx.
+    + destruct rm; [intros u; reflexivity|apply rt_no_tx_nacked].
+    + apply rt_sinv_sub; [exact S|]. intros e I. rewrite A in I. apply filter_In in I. tauto.
   - apply rt_sinv_no_tx; [intros u; reflexivity|exact S].
 Qed.
 
@@ -376,6 +385,10 @@ Qed.
 Lemma rt_no_giveup_acked : forall t rm, rt_no_giveup (map (fun n => RoAcked t (qn_uid n)) rm).
 Proof. intros. unfold rt_no_giveup. induction rm; cbn; constructor; auto. Qed.
 
+Lemma rt_no_giveup_nacked : forall t reason rm, reason <> rt_NACK_TOO_MANY_RETRIES ->
+  rt_no_giveup (map (rt_nack_of t reason) rm).
+Proof. intros. unfold rt_no_giveup. induction rm; cbn; constructor; auto. Qed.
+
 Lemma rt_retransmit_ginv : forall st n tr d,
   rt_entry_ok tr (d, n) -> d <= rs_now st -> rt_giveups_ok tr ->
   rt_giveups_ok (tr ++ snd (rt_retransmit st n)).
@@ -412,7 +425,7 @@ Lemma rt_step_ginv : forall st ev tr,
   rt_ev_ok ev -> rt_rel tr (rs_uid st) (rt_nodes (rs_q st)) -> rt_sinv tr st -> rt_giveups_ok tr ->
   rt_giveups_ok (tr ++ snd (rt_step st ev)).
 Proof.
-  intros st ev tr Hev R S G. destruct ev as [dt|s m b cfg r| |s m|s m|s m tok|]; cbn [rt_step].
+  intros st ev tr Hev R S G. destruct ev as [dt|s m b cfg r| |s m|s m|s m tok|s reason|]; cbn [rt_step].
   - cbn. rewrite app_nil_r. exact G.
   - unfold rt_send. cbn [snd]. apply rt_giveups_app; [exact G|]. repeat constructor.
   - unfold rt_tick, rt_fire_all.
@@ -446,7 +459,7 @@ Proof.
         destruct I; [left|right; right]; assumption. }
       assert (R1 : rt_rel (tr ++ o0) (rs_uid st) (rt_nodes q')).
       { eapply rt_rel_drop with (n := n) (tag := PNack rt_NACK_RST (qn_cnt n) (qn_max n));
-          [intros (A & B & M & O); cbn; repeat split; try lia; left; reflexivity| | |].
+          [intros (A & B & M & O); cbn; repeat split; try lia; intros X; discriminate| | |].
         - cbn. rewrite Z.eqb_refl. reflexivity.
         - intros u Hu. cbn. assert (X : (qn_uid n =? u) = false) by lia. rewrite X. reflexivity.
         - eapply rt_rel_perm; [exact P|exact R]. }
@@ -474,6 +487,9 @@ Proof.
     assert (G1 : rt_giveups_ok (tr ++ o0)) by (apply rt_giveups_app; [exact G|apply rt_no_giveup_acked]).
     pose proof (rt_fire_ginv (rt_budget (rs_q (rt_set_q st q'))) (rt_set_q st q') _ R1 S1 G1) as H.
     destruct (rt_fire _ (rt_set_q st q')) as [st1 o]. cbn [snd] in *. rewrite <- app_assoc in H. exact H.
+  - unfold rt_disconnect. destruct (sq_cancel (rt_sess_match s) (rs_q st)) as [rm q']. cbn [snd].
+    apply rt_giveups_app; [exact G|]. destruct rm as [|n rm]; [repeat constructor|].
+    apply rt_no_giveup_nacked. cbn in Hev. tauto.
   - cbn [snd]. apply rt_giveups_app; [exact G|repeat constructor].
 Qed.
 
